@@ -162,6 +162,8 @@ pub enum TokFault {
     /// byte string for the same residue; RFC 8032 demands S < L). P-384 (v3): add the group order n to
     /// the half that still fits in 48 bytes afterwards, if any.
     SigAddOrder { k: u8 },
+    /// text-level: the `nth` '-' or '_' of the text becomes its standard-alphabet counterpart '+' / '/'
+    TextStdAlphabetAt { nth: usize },
     /// text-level: overwrite as many characters from `at` on as the UTF-8 encoding of `ch` has bytes
     /// (ASCII texts: the byte length of the text stays the same, a multi-byte character then
     /// straddles the byte offsets at .. at+len)
@@ -514,6 +516,24 @@ pub fn apply_tok_fault(d: &mut Delivered, f: &TokFault) -> bool {
                 }
             }
         }
+        TokFault::TextStdAlphabetAt { nth } => {
+            let mut seen = 0usize;
+            let mut out = String::with_capacity(d.text.len());
+            for c in d.text.chars() {
+                if (c == '-' || c == '_') && !changed {
+                    if seen == *nth {
+                        out.push(if c == '-' { '+' } else { '/' });
+                        changed = true;
+                        continue;
+                    }
+                    seen += 1;
+                }
+                out.push(c);
+            }
+            if changed {
+                d.text = out;
+            }
+        }
         TokFault::TextOverwriteBytes { at, ch } => {
             let chars: Vec<char> = d.text.chars().collect();
             let n = ch.len_utf8();
@@ -624,6 +644,7 @@ impl TokFault {
             TokFault::SwapPayloadRanges { .. } => "swap-payload-ranges",
             TokFault::TextReplace { .. } => "text-replace",
             TokFault::TextOverwriteBytes { .. } => "text-overwrite-bytes",
+            TokFault::TextStdAlphabetAt { .. } => "text-std-alphabet-at",
             TokFault::TextReplaceBack { .. } => "text-replace-tail",
             TokFault::TextDropBack { .. } => "text-drop-tail",
             TokFault::TextRemoveRange { .. } => "text-remove-range",
